@@ -319,12 +319,13 @@ class JsonSchemaParser:
                 not valid_attr(attname)
                 or attname in attrs
                 or hasattr(dict, attname)
+                or hasattr(self.object_base_cls, attname)
                 or attname.startswith('_')
             ):
                 # names of dict attributes (items, keys, update, ...) cannot be Schema fields, and
                 # names starting with '_' are not treated as fields at all: rename, keep the key as alias
                 # the new name must not be taken by a field, a dict attribute or another property's key
-                excludes = list(attrs) + dir(dict) + [k for k in properties if k != key]
+                excludes = list(attrs) + dir(dict) + dir(self.object_base_cls) + [k for k in properties if k != key]
                 attname = self.get_attname(attname, excludes=excludes) or 'field'
                 if attname in excludes or not valid_attr(attname):
                     attname = self.get_attname('field_' + attname, excludes=excludes)
